@@ -25,7 +25,8 @@ EXPLANATION = (
     "entry constrained by a test is the highest index it mentions). "
     "R5 (use before validation): in libGetHeader, before the call of libChkHeader, no loop condition mentions a header field that "
     "was filled from the file buffer (or a local computed from one), and such a value indexes an array only under an enclosing "
-    "`value < constant` test. Not decided: that every corruption inside a complete section is detected (the format has no checksums).")
+    "`value < constant` test. R6: arSeek declares the end of an archive only by comparing the position itself with the archive "
+    "size (pos >= size); bytes left over are then read by the checked reads of R1. Not decided: that every corruption inside a complete section is detected (the format has no checksums).")
 
 FROZEN = os.path.join(os.path.dirname(__file__), "frozen")
 READS = ("fread", "fscanf", "fgets")
@@ -293,6 +294,33 @@ def check_use_before_validate(rep, f):
         raise AnalysisBroken("libGetHeader: the loops that fill the section table were not found")
 
 
+def check_archive_end(rep):
+    """R6: the archive walker declares 'end of archive' only when no byte is left; leftover bytes are read and judged by R1."""
+    f = common.extract("archive.c", trees=["arSeek"])
+    fn = f.func("arSeek")
+    pos = fn["params"][1]["n"] if len(fn.get("params", [])) == 2 else None
+    ends = []
+    for x in walk(fn["body"]):
+        if x["k"] == "IfStmt" and x["c"][1] is not None and any(y["k"] == "ReturnStmt" and y["c"] and common.const_value(y["c"][0]) == 0
+                                                                 for y in walk(x["c"][1])):
+            ends.append(x)
+    if pos is None or len(ends) != 1:
+        raise AnalysisBroken("arSeek: `if (<end test>) { ...; return false; }` not recognised")
+    c = strip(ends[0]["c"][0])
+    ok = False
+    if c is not None and c["k"] == "BinaryOperator" and c["op"] in (">=", "=="):
+        a, b = strip(c["c"][0]), strip(c["c"][1])
+        size_like = b is not None and (b["k"] == "DeclRefExpr" and "size" in b["n"].lower() or common.render(b).startswith("arSize"))
+        ok = a is not None and a["k"] == "DeclRefExpr" and a["n"] == pos and size_like
+    if ok:
+        rep.ok("R6", "arSeek:end-only-at-size", sample={"test": common.render(c)})
+    else:
+        rep.violation("R6", "arSeek:end-only-at-size", "archive.c:%d (arSeek)" % ends[0]["l"],
+                      "end of archive is declared by `%s`, i.e. also while bytes remain after the position: a member cut off inside its "
+                      "header or data is dropped as if the archive ended there, instead of being read and reported as truncated"
+                      % common.render(c))
+
+
 def digest(f):
     out = {"reads": [], "chk": [], "referenced": set(), "refs_by_fn": {}}
     for name, fn in f.funcs.items():
@@ -448,6 +476,7 @@ def run(tier, only=None):
     f_hdr = common.extract("lib.c", trees=["libChkHeader", "libGetHeader"])
     check_header_cover(rep, f_hdr)
     check_use_before_validate(rep, f_hdr)
+    check_archive_end(rep)
     # R3 taint
     probe = os.path.join(common.VERIF, "witness", "foam_probe.c")
     fp = common.extract(probe)
